@@ -1336,7 +1336,8 @@ class Stage:
     @property
     def _transcribed(self):
         if not self.is_transcribed:
-            self.master._transcribe()
+            # Through the master's own property: the user's OCP is augmented into a copy first, never transcribed in place
+            self.master._transcribed
         if self._is_original:
             return self._augmented 
         else:
